@@ -10,7 +10,7 @@ from vlib import arrio, core, twoconf  # noqa: E402
 
 PROP = 'C01'
 MODEL_MODULES = ['TenpyModel.Util.J', 'TenpyModel.Core.ArrCodec']
-PROPS_MODULES = ['TenpyModel.C01.PropsLabels', 'TenpyModel.C01.Props', 'TenpyModel.C01.PropsSort', 'TenpyModel.C01.PropsMerge', 'TenpyModel.C01.PropsA', 'TenpyModel.C01.PropsB', 'TenpyModel.C01.PropsB2']
+PROPS_MODULES = ['TenpyModel.C01.PropsLabels', 'TenpyModel.C01.Props', 'TenpyModel.C01.PropsSort', 'TenpyModel.C01.PropsMerge', 'TenpyModel.C01.PropsA', 'TenpyModel.C01.PropsB', 'TenpyModel.C01.PropsB2', 'TenpyModel.C01.PropsC']
 LEVEL = 'proof'
 BUDGET = {'quick': 175, 'thorough': 1700}
 RULE = ('random *programs* (1-8 steps quick, 1-20 thorough) over the public tensor operations, typed by executing '
